@@ -27,13 +27,15 @@ class _Ret(Exception):
 
 
 class Frame:
-    __slots__ = ("locals", "module", "func", "self_obj", "node")
+    __slots__ = ("locals", "module", "func", "self_obj", "node", "globals_declared", "closure")
 
     def __init__(self, module, func=None):
         self.locals = {}
         self.module = module
         self.func = func
         self.node = None
+        self.globals_declared = None
+        self.closure = None          # enclosing function's locals (nested functions / lambdas)
 
 
 BUILTIN_EXC = {
@@ -109,12 +111,34 @@ class Interp:
 
     def _import_stub(self, name):
         if name == "re":
-            return ModStub("re", {"compile": Builtin("re.compile", lambda p, *a: RegexObj(p))})
+            def _re_fn(nm):
+                def f(pat, text, *a):
+                    if nm in ("match", "search"):
+                        return self.regex(RegexObj(pat), text, nm == "search")
+                    if not isinstance(text, str) or any(not isinstance(x, (str, int)) for x in a):
+                        raise EngineError("re.%s on symbolic text" % nm)
+                    import re as _re
+                    return self.native(getattr(_re, nm), pat, text, *a)
+                return f
+
+            def _re_sub(pat, repl, text, *a):
+                if not isinstance(text, str) or not isinstance(repl, str):
+                    raise EngineError("re.sub on symbolic text")
+                import re as _re
+                return self.native(_re.sub, pat, repl, text, *a)
+            return ModStub("re", {"compile": Builtin("re.compile", lambda p, *a: RegexObj(p)), "match": Builtin("re.match", _re_fn("match")),
+                                  "search": Builtin("re.search", _re_fn("search")), "split": Builtin("re.split", _re_fn("split")),
+                                  "findall": Builtin("re.findall", _re_fn("findall")), "sub": Builtin("re.sub", _re_sub)})
         if name == "os":
             # ghost-filesystem contracts of the os.path predicates the repo (or a plausible change to it) uses
             return ModStub("os", {"path": ModStub("os.path", {
                 "exists": Builtin("os.path.exists", self._exists), "isfile": Builtin("os.path.isfile", self._exists),
-                "getsize": Builtin("os.path.getsize", self._getsize)})})
+                "getsize": Builtin("os.path.getsize", self._getsize),
+                "basename": Builtin("os.path.basename", lambda p_: self.native(os.path.basename, p_)),
+                "dirname": Builtin("os.path.dirname", lambda p_: self.native(os.path.dirname, p_)),
+                "splitext": Builtin("os.path.splitext", lambda p_: self.native(os.path.splitext, p_)),
+                "join": Builtin("os.path.join", lambda *p_: self.native(os.path.join, *p_)),
+                "abspath": Builtin("os.path.abspath", lambda p_: p_)})})
         if name == "sys":
             return ModStub("sys", {"exit": Builtin("sys.exit", self._sys_exit), "argv": []})
         if name == "copy":
@@ -201,6 +225,22 @@ class Interp:
     def st_Pass(self, s, fr):
         return None
 
+    def st_Assert(self, s, fr):
+        if not self.truth(self.eval(s.test, fr)):
+            msg = self.eval(s.msg, fr) if s.msg is not None else ""
+            self.raise_("AssertionError", msg)
+        return None
+
+    def st_Global(self, s, fr):
+        g = getattr(fr, "globals_declared", None)
+        if g is None:
+            g = fr.globals_declared = set()
+        g.update(s.names)
+        return None
+
+    def st_Nonlocal(self, s, fr):
+        return None
+
     def st_Delete(self, s, fr):
         """del name / del obj[index or slice] (in-place removal from python lists, SeqList and ArrList prefixes)"""
         for t in s.targets:
@@ -268,13 +308,26 @@ class Interp:
 
     def assign(self, t, v, fr):
         if isinstance(t, ast.Name):
-            fr.locals[t.id] = v
+            if fr.globals_declared and t.id in fr.globals_declared:
+                fr.module.globals[t.id] = v
+            else:
+                fr.locals[t.id] = v
         elif isinstance(t, ast.Attribute):
             self.setattr_(self.eval(t.value, fr), t.attr, v)
         elif isinstance(t, ast.Subscript):
             self.setitem(self.eval(t.value, fr), self.eval_index(t.slice, fr), v)
         elif isinstance(t, (ast.Tuple, ast.List)):
             vals = list(self.iterate(v))
+            stars = [k for k, tt in enumerate(t.elts) if isinstance(tt, ast.Starred)]
+            if stars:
+                k = stars[0]
+                after = len(t.elts) - k - 1
+                if len(vals) < len(t.elts) - 1:
+                    self.raise_("ValueError", "not enough values to unpack")
+                parts = vals[:k] + [vals[k:len(vals) - after]] + (vals[len(vals) - after:] if after else [])
+                for tt, vv in zip(t.elts, parts):
+                    self.assign(tt.value if isinstance(tt, ast.Starred) else tt, vv, fr)
+                return
             if len(vals) != len(t.elts):
                 self.raise_("ValueError", "unpack: expected %d values, got %d" % (len(t.elts), len(vals)))
             for tt, vv in zip(t.elts, vals):
@@ -406,17 +459,22 @@ class Interp:
                 kind = d.id
             elif isinstance(d, ast.Name) and d.id == "abstractmethod":
                 abstract = True
+            elif isinstance(d, ast.Name) and d.id == "property":
+                kind = "property"
             else:
                 raise EngineError("decorator")
         a = s.args
-        if a.vararg or a.kwarg or a.kwonlyargs or a.posonlyargs:
+        if a.posonlyargs:
             raise EngineError("function signature outside the subset: %s" % s.name)
         defaults = [self.eval(d, fr) for d in a.defaults]
         for d in defaults:
             self._tag_shared(d)
         qual = s.name if fr.func is None and fr.locals is fr.module.globals else None
         f = Func(s, fr.module, s.name, defaults, kind=kind)
+        f.kw_defaults = {ka.arg: self.eval(kd, fr) for ka, kd in zip(a.kwonlyargs, a.kw_defaults) if kd is not None}
         f.abstract = abstract
+        if fr.func is not None:
+            f.closure = (fr.locals, fr.closure)       # nested function: sees the enclosing function's variables
         fr.locals[s.name] = f
 
     def _tag_shared(self, v):
@@ -479,6 +537,11 @@ class Interp:
     def lookup(self, name, fr):
         if name in fr.locals:
             return fr.locals[name]
+        c = fr.closure
+        while c is not None:
+            if name in c[0]:
+                return c[0][name]
+            c = c[1]
         g = fr.module.globals
         if name in g:
             return g[name]
@@ -502,7 +565,42 @@ class Interp:
         return {self.eval(k, fr): self.eval(v, fr) for k, v in zip(e.keys, e.values)}
 
     def ex_JoinedStr(self, e, fr):
-        raise EngineError("f-string")
+        """f-string: each {value[!conv][:spec]} is rendered through str.format's model"""
+        parts = []
+        for v in e.values:
+            if isinstance(v, ast.Constant):
+                parts.append(v.value)
+                continue
+            val = self.eval(v.value, fr)
+            if v.conversion == ord("r"):
+                val = self.py_repr(val)
+            elif v.conversion == ord("s"):
+                val = self.py_str(val)
+            spec = self.eval(v.format_spec, fr) if v.format_spec is not None else ""
+            if not isinstance(spec, str):
+                raise EngineError("symbolic f-string format spec")
+            parts.append(strmodel.s_format(self, "{:%s}" % spec if spec else "{}", [val], {}))
+        if all(isinstance(p, str) for p in parts):
+            return "".join(parts)
+        out = SStr([])
+        for p in parts:
+            out = out + SStr.of(p)
+        return out
+
+    def ex_Lambda(self, e, fr):
+        defaults = [self.eval(d, fr) for d in e.args.defaults]
+        f = Func(e, fr.module, "<lambda>", defaults, kind="function")
+        f.kw_defaults = {}
+        f.closure = (fr.locals, fr.closure)
+        return f
+
+    def ex_Set(self, e, fr):
+        return set(self.eval(x, fr) for x in e.elts)
+
+    def ex_NamedExpr(self, e, fr):
+        v = self.eval(e.value, fr)
+        self.assign(e.target, v, fr)
+        return v
 
     def ex_BoolOp(self, e, fr):
         if isinstance(e.op, ast.And):
@@ -533,6 +631,8 @@ class Interp:
             return self.native(lambda: -v)
         if isinstance(e.op, ast.UAdd):
             return v
+        if isinstance(e.op, ast.Invert):
+            return self.native(lambda: -v - 1)
         raise EngineError("unary op")
 
     def ex_BinOp(self, e, fr):
@@ -563,7 +663,12 @@ class Interp:
                 return a // b
             if t is ast.Mod:
                 if isinstance(a, (str, SStr)):
-                    raise EngineError("% formatting")
+                    vals = b if isinstance(b, tuple) else (b,)
+                    if isinstance(a, str) and all(isinstance(v, (int, str, float, bool)) or v is None for v in vals):
+                        return self.native(lambda: a % b)
+                    if isinstance(a, str) and all(isinstance(v, Obj) or isinstance(v, (int, str, float)) for v in vals) and "%s" in a:
+                        return self.native(lambda: a % tuple(self.py_str(v) if isinstance(v, Obj) else v for v in vals))
+                    raise EngineError("% formatting with symbolic operands")
                 return a % b
             if t is ast.BitAnd:
                 return a & b
@@ -856,7 +961,10 @@ class Interp:
                     self.raise_("IndexError", "list assignment index out of range")
                 i = self._concretize(i, -n, n - 1, "list store index")
             if isinstance(i, slice):
-                raise EngineError("slice assignment")
+                if any(isinstance(x, SymInt) for x in (i.start, i.stop, i.step)) or isinstance(v, (SeqList, ArrList)):
+                    raise EngineError("symbolic slice assignment")
+                self.native(o.__setitem__, i, list(self.iterate(v)))
+                return
             self.native(o.__setitem__, i, v)
             return
         if isinstance(o, dict):
@@ -876,6 +984,19 @@ class Interp:
     def ex_ListComp(self, e, fr):
         out = []
         self._comp(e.generators, 0, fr, lambda f: out.append(self.eval(e.elt, f)))
+        return out
+
+    def ex_DictComp(self, e, fr):
+        out = {}
+
+        def emit(f):
+            out[self.eval(e.key, f)] = self.eval(e.value, f)
+        self._comp(e.generators, 0, fr, emit)
+        return out
+
+    def ex_SetComp(self, e, fr):
+        out = set()
+        self._comp(e.generators, 0, fr, lambda f: out.add(self.eval(e.elt, f)))
         return out
 
     def ex_GeneratorExp(self, e, fr):
@@ -918,6 +1039,8 @@ class Interp:
             return it.iterate(self)
         if hasattr(it, "__next__"):
             return it
+        if isinstance(it, (type({}.keys()), type({}.values()), type({}.items()))):
+            return iter(list(it))
         if isinstance(it, Obj) and it.cls.kind == "namedtuple":
             return iter([it.fields[k] for k in it.cls.fields])
         if it is None or isinstance(it, (int, SymInt, Obj)):
@@ -992,6 +1115,8 @@ class Interp:
                 return v
             if v.kind == "classmethod":
                 return BoundMethod(v, cls if isinstance(cls, Cls) else o.cls)
+            if v.kind == "property" and isinstance(o, Obj):
+                return self.call_func(v, [o], {})
             return BoundMethod(v, o)
         return v
 
@@ -1021,12 +1146,17 @@ class Interp:
         args = []
         for a in e.args:
             if isinstance(a, ast.Starred):
-                raise EngineError("star-args")
+                args.extend(self.iterate(self.eval(a.value, fr)))
+                continue
             args.append(self.eval(a, fr))
         kwargs = {}
         for k in e.keywords:
             if k.arg is None:
-                raise EngineError("**kwargs")
+                d = self.eval(k.value, fr)
+                if not isinstance(d, dict):
+                    raise EngineError("**kwargs of a non-dict")
+                kwargs.update(d)
+                continue
             kwargs[k.arg] = self.eval(k.value, fr)
         return self.call(fn, args, kwargs)
 
@@ -1051,23 +1181,47 @@ class Interp:
         raise EngineError("call of %r" % (fn,))
 
     def bind_args(self, f, args, kwargs):
-        params = [a.arg for a in f.node.args.args]
+        fa = f.node.args
+        params = [a.arg for a in fa.args]
+        fname = getattr(f.node, "name", "<lambda>")
+        extra = []
         if len(args) > len(params):
-            self.raise_("TypeError", "%s() takes %d positional arguments but %d were given" % (f.node.name, len(params), len(args)))
+            if fa.vararg is None:
+                self.raise_("TypeError", "%s() takes %d positional arguments but %d were given" % (fname, len(params), len(args)))
+            extra = list(args[len(params):])
+            args = args[:len(params)]
         bound = dict(zip(params, args))
-        for k, v in kwargs.items():
+        kwonly = [a.arg for a in fa.kwonlyargs]
+        rest = {}
+        for k, v in list(kwargs.items()):
+            if k in kwonly:
+                bound[k] = v
+                continue
+            if k not in params and fa.kwarg is not None:
+                rest[k] = v
+                continue
             if k not in params:
-                self.raise_("TypeError", "%s() got an unexpected keyword argument '%s'" % (f.node.name, k))
+                self.raise_("TypeError", "%s() got an unexpected keyword argument '%s'" % (fname, k))
             if k in bound:
-                self.raise_("TypeError", "%s() got multiple values for argument '%s'" % (f.node.name, k))
+                self.raise_("TypeError", "%s() got multiple values for argument '%s'" % (fname, k))
             bound[k] = v
         nd = len(f.defaults)
         for idx, p in enumerate(params):
             if p not in bound:
                 di = idx - (len(params) - nd)
                 if di < 0:
-                    self.raise_("TypeError", "%s() missing required positional argument: '%s'" % (f.node.name, p))
+                    self.raise_("TypeError", "%s() missing required positional argument: '%s'" % (fname, p))
                 bound[p] = f.defaults[di]
+        for k in kwonly:
+            if k not in bound:
+                kd = getattr(f, "kw_defaults", {})
+                if k not in kd:
+                    self.raise_("TypeError", "%s() missing required keyword-only argument: '%s'" % (fname, k))
+                bound[k] = kd[k]
+        if fa.vararg is not None:
+            bound[fa.vararg.arg] = tuple(extra)
+        if fa.kwarg is not None:
+            bound[fa.kwarg.arg] = rest
         return bound
 
     def call_func(self, f, args, kwargs):
@@ -1083,9 +1237,12 @@ class Interp:
             self.raise_("RecursionError", "maximum recursion depth exceeded")
         fr = Frame(f.module, f)
         fr.locals = bound
+        fr.closure = getattr(f, "closure", None)
         self.depth += 1
         self.stack.append(f)
         try:
+            if isinstance(f.node, ast.Lambda):
+                return self.eval(f.node.body, fr)
             r = self.exec_block(f.node.body, fr)
         finally:
             self.depth -= 1
@@ -1151,7 +1308,7 @@ class Interp:
         def _len(x):
             if isinstance(x, (SeqList, ArrList, AbsList)):
                 return x.length()
-            if isinstance(x, (str, list, tuple, dict, bytes, bytearray, SStr, range)):
+            if isinstance(x, (str, list, tuple, dict, bytes, bytearray, SStr, range, set, frozenset)):
                 return len(x)
             if isinstance(x, Obj) and x.cls.kind == "namedtuple":
                 return len(x.cls.fields)
@@ -1279,6 +1436,61 @@ class Interp:
             "all": Builtin("all", lambda xs: all(self.truth(x) for x in self.iterate(xs))),
             "True": True, "False": False, "None": None,
         })
+
+        def _round(x, nd=None):
+            return self.native(lambda: round(x) if nd is None else round(x, nd))
+
+        def _hasattr(o, name):
+            try:
+                self.getattr_(o, name)
+                return True
+            except PyRaise:
+                return False
+
+        def _getattr(o, name, *default):
+            try:
+                return self.getattr_(o, name)
+            except PyRaise:
+                if default:
+                    return default[0]
+                raise
+
+        def _sorted(xs, key=None, reverse=False):
+            items = list(self.iterate(xs))
+            if key is not None:
+                keyed = [(self.call(key, [x], {}), i, x) for i, x in enumerate(items)]
+                keyed.sort(key=lambda t: (t[0], t[1]), reverse=reverse)
+                return [t[2] for t in keyed]
+            return sorted(items, reverse=reverse)
+
+        def _keyed(pick):
+            def f(*a, key=None, default=None):
+                xs = list(self.iterate(a[0])) if len(a) == 1 else list(a)
+                if not xs:
+                    if default is not None:
+                        return default
+                    self.raise_("ValueError", "arg is an empty sequence")
+                if key is None:
+                    return (self._min if pick == "min" else self._max)(*xs) if len(xs) > 1 else xs[0]
+                best, bk = xs[0], self.call(key, [xs[0]], {})
+                for x in xs[1:]:
+                    k = self.call(key, [x], {})
+                    if self.truth(k < bk if pick == "min" else k > bk):
+                        best, bk = x, k
+                return best
+            return f
+        b.update({
+            "round": Builtin("round", _round), "hasattr": Builtin("hasattr", _hasattr), "getattr": Builtin("getattr", _getattr),
+            "zip": Builtin("zip", lambda *xs: list(zip(*[list(self.iterate(x)) for x in xs]))),
+            "reversed": Builtin("reversed", lambda xs: list(reversed(list(self.iterate(xs))))),
+            "sorted": Builtin("sorted", _sorted), "min": Builtin("min", _keyed("min")), "max": Builtin("max", _keyed("max")),
+            "map": Builtin("map", lambda f, *xs: [self.call(f, list(t), {}) for t in zip(*[list(self.iterate(x)) for x in xs])]),
+            "filter": Builtin("filter", lambda f, xs: [x for x in self.iterate(xs) if self.truth(x if f is None else self.call(f, [x], {}))]),
+            "divmod": Builtin("divmod", lambda a, c: self.native(lambda: divmod(a, c))),
+            "bin": Builtin("bin", lambda x: self.native(lambda: bin(x))), "pow": Builtin("pow", lambda *a: self.native(lambda: pow(*a))),
+            "float": self.types["float"], "bytes": self.types["bytes"], "callable": Builtin("callable", lambda f: isinstance(f, (Func, Builtin, BoundMethod, Cls))),
+            "id": Builtin("id", lambda o: id(o)),
+        })
         self.types["int"].fn = _int
         self.types["str"].fn = lambda x="": self.py_str(x)
         self.types["dict"].fn = lambda *a, **k: dict(*a, **k)
@@ -1337,6 +1549,9 @@ class Interp:
             f, owner = x.cls.lookup("__str__")
             if f is not None and isinstance(f, Func):
                 return self.call(BoundMethod(f, x), [], {})
+            f, owner = x.cls.lookup("__repr__")
+            if f is not None and isinstance(f, Func) and x.cls.kind not in ("exception", "builtin-exc", "enum"):
+                return self.call(BoundMethod(f, x), [], {})
             if x.cls.kind in ("exception", "builtin-exc"):
                 a = x.fields.get("args", ())
                 if len(a) == 0:
@@ -1359,6 +1574,9 @@ class Interp:
         if isinstance(x, SymInt):
             return render_int(x, 10)
         if isinstance(x, Obj):
+            f, owner = x.cls.lookup("__repr__")
+            if f is not None and isinstance(f, Func):
+                return self.call(BoundMethod(f, x), [], {})
             return "<%s object>" % x.cls.name
         if isinstance(x, list):
             parts = [self.py_repr(v) for v in x]
@@ -1398,7 +1616,17 @@ class Interp:
                         if self.truth(self.eq(x, args[0])):
                             return k
                     self.raise_("ValueError", "x not in list")
-                raise EngineError("list.%s" % name)
+                if name == "count":
+                    n = 0
+                    for x in recv:
+                        if self.truth(self.eq(x, args[0])):
+                            n += 1
+                    return n
+                for k, x in enumerate(recv):
+                    if self.truth(self.eq(x, args[0])):
+                        del recv[k]
+                        return None
+                self.raise_("ValueError", "list.remove(x): x not in list")
             if name == "pop" and args and isinstance(args[0], SymInt):
                 raise EngineError("list.pop symbolic")
             return self.native(getattr(recv, name), *args, **kwargs)
